@@ -15,6 +15,14 @@ from .. import common, tlc, project, rewrite
 from ..common import Result, Violation
 
 
+class Name(str):
+    """a variable name that is equal to the plain one-letter string but is not the same object (as a name read from a file,
+    taken from a numpy array or built at run time would be)"""
+
+
+_NAMES = [0]
+
+
 def build_json(t):
     from mathy_core import expressions as E
     k = t["k"]
@@ -22,7 +30,8 @@ def build_json(t):
         n, d = t["n"], t["d"]
         return E.ConstantExpression(n if d == 1 else n / d)
     if k == "v":
-        return E.VariableExpression(chr(t["id"]))
+        _NAMES[0] += 1
+        return E.VariableExpression(Name(chr(t["id"])) if _NAMES[0] % 2 else chr(t["id"]))
     if k in ("neg", "fact", "sgn", "abs"):
         cls = {"neg": E.NegateExpression, "fact": E.FactorialExpression, "sgn": E.SgnExpression, "abs": E.AbsExpression}[k]
         return cls(build_json(t["c"]))
